@@ -383,6 +383,7 @@ func scenarios() []scenario {
 		{"hold-query", []SOp{add("a/b", 1), hold("a/b", 5), qry("a/b"), del("a/*"), get("a/b")}, []int{0, 0}, 80, 2000},
 		{"query-park", []SOp{add("a/b", 1), qry("a/b"), del("a/b"), add("a/c", 2), hold("a/b", 9)}, []int{0, 0}, 80, 2000},
 		{"query-park-2", []SOp{add("a/b", 1), add("c", 2), qry("a/*"), add("a/d/e", 3), del("*"), get("c")}, []int{0, 0, 1, 1}, 80, 3000},
+		{"query-park-add", []SOp{add("a/b", 1), qry("a/b"), add("a/b", 7), get("a/b"), del("a"), add("a/b", 8)}, []int{0, 0}, 80, 2000},
 		{"two-holds-get", []SOp{add("a/b", 1), hold("a/b", 5), get("a/b"), del("a"), hold("a/b", 6)}, []int{0, 0}, 60, 2000},
 		{"hold-get-add", []SOp{add("a/b", 1), add("a/c", 2), hold("a/b", 5), get("a/b"), add("a/b", 7), get("a/c"), del("a/b")}, []int{0, 0, 1, 1}, 80, 3000},
 		{"two-deleters", []SOp{add("a/b", 1), add("a/c/d", 2), del("a/b"), del("a"), add("a/c/e", 3)}, []int{0, 0}, 80, 3000},
